@@ -96,6 +96,25 @@ class SimProcess:
         return self.mod.parse(text, bypass_cache=True)
 
 
+def tree_module():
+    """A fresh module instance of pymoca.tree (its module-level state - memo tables and the like - starts empty), bound to
+    the shared pymoca.ast so that parsed trees can be handed to it.  One per simulated process: the system under test
+    gets one per run, every reference computation a pristine one of its own."""
+    import pymoca
+
+    path = os.path.join(os.path.dirname(pymoca.__file__), "tree.py")
+    code = _code_cache.get(path)
+    if code is None:
+        with open(path, "rb") as f:
+            code = compile(f.read(), path, "exec")
+        _code_cache[path] = code
+    mod = types.ModuleType("pymoca.tree")
+    mod.__file__ = path
+    mod.__package__ = "pymoca"
+    exec(code, mod.__dict__)
+    return mod
+
+
 class ApiProcess:
     """A simulated process as far as the CasADi API is concerned: a fresh module instance of
     pymoca.backends.casadi.api bound to its own version label."""
